@@ -68,6 +68,30 @@ pub mod scan;
 pub mod scanning;
 pub mod wallet;
 
+/// Observation points for external runtime monitors. Compiled only under
+/// `--cfg zcash_librustzcash_verif`; without that flag nothing here exists.
+#[cfg(zcash_librustzcash_verif)]
+pub mod verif_hooks {
+    use std::sync::OnceLock;
+
+    /// `(event kind, a, b)`; called on the thread on which the event happens.
+    pub type Hook = fn(&'static str, u64, u64);
+
+    static HOOK: OnceLock<Hook> = OnceLock::new();
+
+    /// Installs the process-wide hook (the first installation wins).
+    pub fn install(hook: Hook) {
+        let _ = HOOK.set(hook);
+    }
+
+    #[inline]
+    pub(crate) fn event(kind: &'static str, a: u64, b: u64) {
+        if let Some(hook) = HOOK.get() {
+            hook(kind, a, b)
+        }
+    }
+}
+
 #[cfg(any(feature = "sync", feature = "sync-decryptor"))]
 pub mod sync;
 
